@@ -325,7 +325,34 @@ class Interp:
         return any(isinstance(c, type) and issubclass(exc.cls, c) for c in classes)
 
     def st_With(self, s: ast.With, f: Frame) -> None:
-        raise Unsupported("with statement")
+        """with A as x, B as y: body  — __enter__/__exit__ of modelled context managers (exceptions are not suppressed
+        unless __exit__ returns a true value)."""
+        self._with_items(s.items, s.body, f)
+
+    def _with_items(self, items: list, body: list, f: Frame) -> None:
+        if not items:
+            self.exec_block(body, f)
+            return
+        item = items[0]
+        ctx = self.ev(item.context_expr, f)
+        enter = self.get_attr(ctx, "__enter__", f)
+        val = self.call_value(enter, [], {}, None, f)
+        if item.optional_vars is not None:
+            self.assign(item.optional_vars, val, f)
+        try:
+            self._with_items(items[1:], body, f)
+        except PyRaise as pr:
+            ex = self.get_attr(ctx, "__exit__", f)
+            r = self.call_value(ex, [pr.exc.cls, pr.exc, None], {}, None, f)
+            if not ops.truth(self.p, r, "with-exit-suppresses"):
+                raise
+            return
+        except (_Return, _Break, _Continue):
+            ex = self.get_attr(ctx, "__exit__", f)
+            self.call_value(ex, [None, None, None], {}, None, f)
+            raise
+        ex = self.get_attr(ctx, "__exit__", f)
+        self.call_value(ex, [None, None, None], {}, None, f)
 
     # ---- loops -------------------------------------------------------------------------------
     def st_While(self, s: ast.While, f: Frame) -> None:
